@@ -20,6 +20,10 @@ RULE = ("each case = 2-8 requests (some repeated, cache on/off, 0x20/EDNS/cookie
 def own(key):
     if key.startswith("prov:"):
         return PROP
+    if key.startswith("cookie:cookieless-delivered") or key.startswith("cookie:wrong-client-cookie-delivered"):
+        return PROP   # "passes the DNS-cookie checks", judged over histories that span the cookie timers
+    if key.startswith("cookie:"):
+        return "C17"
     return C01.own(key)
 
 
@@ -27,6 +31,13 @@ def run(tier, seed, scale=1.0):
     t0 = time.time()
     n = int((20000 if tier == "quick" else 1500000) * scale)
     res = vdriver.explore(common.spec("simnet", "prov", seed), n, chunk=max(250, n // 128), chunk_timeout=900)
+    # the cookie condition over long histories (regression period, daily rotation, address changes): the prov cases
+    # above span a few seconds; C17's workload spans days of virtual time and its delivery rule is this property's
+    n2 = int((6000 if tier == "quick" else 300000) * scale)
+    r2 = vdriver.explore(common.spec("simnet", "cookie", seed), n2, chunk=max(100, n2 // 64), chunk_timeout=900)
+    r2.counters = {"cookie_" + k: v for k, v in r2.counters.items() if k in ("cases", "rule_cookie_r5_delivery", "requests", "transmissions")}
+    r2.fps = set()
+    res.merge(r2)
     return common.finish(PROP, tier, seed, "exploration", res, own, RULE, t0, min_conclusive=int(3000 * scale),
                          assumptions=["'currently assigned connection' is read from the live query through ares_private.h at the "
                                       "moment the library reads the packet",
